@@ -309,11 +309,27 @@ def specs_sir(tier):
                 for full in (False, True):
                     out.append(dict(fn="Gillespie_SIR", n=n, edges=es, tw=tw, rw=rw, tau=0.3, gamma=0.7, I0=list(I0), R0=[], full=full))
     out += _argtype_specs("Gillespie_SIR")
+    out += _tiny_rate_specs("Gillespie_SIR")
     # probability-zero outcomes of the uniform draws (exactly 0.0): zero-weight links/nodes must NEVER be chosen
     for (n, es) in (gr.NAMED["K3"], gr.NAMED["P3"]):
         for I0 in gr.subsets(range(n), 1, 1):
             out.append(dict(fn="Gillespie_SIR", n=n, edges=es, tw="w", rw="rw", tau=0.3, gamma=0.7, I0=list(I0), R0=[], full=False,
                             zero_draws=True, zero_first=True))
+    return out
+
+
+def _tiny_rate_specs(fn):
+    """rates of order 1e-9: the chain is the same chain on a slower clock (no absolute threshold on rates)"""
+    out = []
+    for (n, es) in (gr.NAMED["K3"], gr.NAMED["P3"], gr.NAMED["P4"]):
+        for (tw, rw) in ((None, None), ("w", "rw")):
+            for (tau, gamma) in ((2e-9, 1e-9), (1e-9, 0.0), (3e-8, 2e-8)):
+                for I0 in ([0], [1]):
+                    for full in (False, True):
+                        sp = dict(fn=fn, n=n, edges=es, tw=tw, rw=rw, tau=tau, gamma=gamma, I0=I0, R0=[], full=full)
+                        if fn.endswith("SIS"):
+                            sp.update(tmin=0, tmax=3.5)
+                        out.append(sp)
     return out
 
 
@@ -370,4 +386,5 @@ def specs_sis(tier):
                     out.append(dict(fn="Gillespie_SIS", n=n, edges=es, tw=None, rw=None, tau=0.3, gamma=0.7,
                                     I0=list(I0), tmin=tmin, tmax=tmax, full=full))
     out += _argtype_specs("Gillespie_SIS")
+    out += _tiny_rate_specs("Gillespie_SIS")
     return out
